@@ -71,7 +71,7 @@ def v_str(s):
 
 
 def gen_value(rnd: random.Random, cls: str | None = None) -> V:
-    cls = cls or rnd.choice(["str"] * 8 + ["int", "int", "float", "float", "Decimal", "bool", "None", "date", "datetime", "time"])
+    cls = cls or rnd.choice(["str"] * 8 + ["int", "int", "float", "float", "Decimal", "bool", "None", "date", "datetime", "datetime_tz", "time"])
     if cls == "str":
         return v_str(gen_str(rnd))
     if cls == "int":
@@ -95,11 +95,28 @@ def gen_value(rnd: random.Random, cls: str | None = None) -> V:
     if cls == "datetime":
         d = dt.datetime(rnd.randint(1700, 2200), rnd.randint(1, 12), rnd.randint(1, 28), rnd.randint(0, 23), rnd.randint(0, 59), rnd.randint(0, 59),
                         rnd.choice([0, 0, 1, 999999, rnd.randint(0, 999999)]))
-        return V(d, "datetime", "S:" + enc_str(_dt_text(d)), "ts")
+        return V(d, "datetime", _dt_wire(d), "ts")
+    if cls == "datetime_tz":
+        off = rnd.choice([300, -480, 0, 330, -210, 60, 840, -720])
+        d = dt.datetime(rnd.randint(1900, 2200), rnd.randint(1, 12), rnd.randint(1, 28), rnd.randint(0, 23), rnd.randint(0, 59), rnd.randint(0, 59),
+                        rnd.choice([0, 0, 1, 999999, rnd.randint(0, 999999)]), tzinfo=dt.timezone(dt.timedelta(minutes=off)))
+        return V(d, "datetime_tz", _dt_wire(d), "s")       # read back as TEXT: the wall-clock fields and the offset are data
     if cls == "time":
         t = dt.time(rnd.randint(0, 23), rnd.randint(0, 59), rnd.randint(0, 59), rnd.choice([0, 0, 5, rnd.randint(0, 999999)]))
         return V(t, "time", "S:" + enc_str(t.strftime("%H:%M:%S") + (f".{t.microsecond:06d}" if t.microsecond else "")), "tm")
     raise AssertionError(cls)
+
+
+def _dt_wire(d: dt.datetime) -> str:
+    """a datetime by its fields: the model (Fs.Params.dtText) renders the text"""
+    off = "-" if d.tzinfo is None else str(int(d.utcoffset().total_seconds() // 60))
+    return f"D:{d.year},{d.month},{d.day},{d.hour},{d.minute},{d.second},{d.microsecond},{off}"
+
+
+def _tz_text(d: dt.datetime) -> str:
+    """independent rendering of an aware datetime (the harness's own oracle)"""
+    m = int(d.utcoffset().total_seconds() // 60)
+    return _dt_text(d) + ("+" if m >= 0 else "-") + f"{abs(m) // 60:02d}:{abs(m) % 60:02d}"
 
 
 def _dt_text(d: dt.datetime) -> str:
@@ -185,6 +202,8 @@ def make_cases(chk) -> list[dict]:
     for _ in range(n):
         style = rnd.choice(styles)
         v = gen_value(rnd)
+        if v.cls == "datetime_tz" and style == "qmark":
+            style = "pyformat"      # through qmark the VARCHAR column receives DuckDB's own rendering of a TIMESTAMPTZ
         k = next_id()
         ins = [("lit", f"insert into t (id, {v.col}) values ({k}, "), ("ph",), ("lit", ")")]
         add("typed", style, [pstep(ins, style, [v], fetch=True), plain(f"select {v.col} from t where id = {k}")], expect=[[typed(v)]])
@@ -261,6 +280,17 @@ def make_cases(chk) -> list[dict]:
                 steps.append(plain(f"select id, s, s2 from t where id >= {ids[0]} and id <= {ids[-1]} order by id"))
                 last_expect = None
         add("seq", style, steps, expect=last_expect)
+    # K7a': dates, times, naive and aware datetimes used as TEXT (client-side styles): VARCHAR column, concatenation, left(), equality
+    for _ in range(max(40, n // 3)):
+        style = rnd.choice(["pyformat", "format"])
+        v = gen_value(rnd, rnd.choice(["datetime_tz", "datetime_tz", "datetime", "date", "time"]))
+        text = _tz_text(v.py) if v.cls == "datetime_tz" else canon(v.py)[1]
+        kid = next_id()
+        pieces = [("lit", "select "), ("ph",), ("lit", " || '|', left("), ("ph",), ("lit", ", 10), length("), ("ph",), ("lit", "), "), ("ph",), ("lit", f" = '{text}'")]
+        steps = [pstep([("lit", f"insert into t (id, s, s2) values ({kid}, "), ("ph",), ("lit", ", 'x' || "), ("ph",), ("lit", ")")], style, [v, v]),
+                 plain(f"select s, s2 from t where id = {kid}"),
+                 pstep(pieces, style, [v, v, v, v])]
+        add("astext", style, steps, expect=[[("str", text + "|"), ("str", text[:10]), ("int", len(text)), ("bool", True)]])
     # K7c: the SAME container object (dict / tuple / list / list of rows) bound in 2-3 successive executes: every execute must bind
     # the values the caller put in, and the container must still be what the caller passed
     for _ in range(max(40, n // 4)):
@@ -380,10 +410,14 @@ def untyped(v: V, style: str):
     quoted texts (the connector's convention), bound through qmark they are native values"""
     if v.cls in ("Decimal",) and style != "qmark":
         return ("str", str(v.py))
+    if v.cls == "datetime_tz" and style != "qmark":
+        return ("str", _tz_text(v.py))
     return canon(v.py)
 
 
 def typed(v: V):
+    if v.cls == "datetime_tz":
+        return ("str", _tz_text(v.py))       # stored in the VARCHAR column
     return canon(v.py)
 
 
@@ -407,7 +441,9 @@ def canon(x):
     if isinstance(x, str):
         return ("str", x)
     if isinstance(x, dt.datetime):
-        return ("str", _dt_text(x) + ("" if x.tzinfo is None else "tz"))
+        if x.tzinfo is not None:
+            return ("instant", x.astimezone(dt.timezone.utc).replace(tzinfo=None).isoformat())
+        return ("str", _dt_text(x))
     if isinstance(x, dt.date):
         return ("str", f"{x.year:d}-{x.month:02d}-{x.day:02d}")
     if isinstance(x, dt.time):
@@ -637,6 +673,8 @@ def _attach_model(cases, replies, index):
                 run_spec = False   # a NUL cannot be written in DuckDB SQL text at all: qmark is checked by read-back only
             if case["style"] == "qmark" and case["kind"] == "typed" and any(v.cls == "float" for v in allvals):
                 run_spec = False   # DuckDB reads a written decimal literal inexactly into FLOAT (C08/float-literal-inexact); qmark binds the double itself
+            if case["style"] == "qmark" and any(v.cls == "datetime_tz" for v in allvals):
+                run_spec = False   # qmark binds a TIMESTAMPTZ (compared as an instant); the client-side convention is the quoted text with its offset
             if case["style"] == "qmark" and case["kind"] != "typed" and any(v.cls == "Decimal" for v in allvals):
                 run_spec = False   # untyped context: qmark binds a DECIMAL value, the client-side convention is the quoted text
         findings.discard("-")
@@ -1010,7 +1048,7 @@ def _v_from(x) -> V:
     if isinstance(x, decimal.Decimal):
         return V(x, "Decimal", "S:" + enc_str(str(x)), "dc")
     if isinstance(x, dt.datetime):
-        return V(x, "datetime", "S:" + enc_str(_dt_text(x)), "ts")
+        return V(x, "datetime" if x.tzinfo is None else "datetime_tz", _dt_wire(x), "ts" if x.tzinfo is None else "s")
     if isinstance(x, dt.date):
         return V(x, "date", "S:" + enc_str(f"{x.year:d}-{x.month:02d}-{x.day:02d}"), "d")
     if isinstance(x, dt.time):
